@@ -70,7 +70,19 @@ def main(argv=None) -> int:
     if a.prop not in PROPS:
         print(f"ANALYSIS-ERROR unknown property {a.prop}")
         return 2
+    # an analysis that does not terminate must not hang the caller: ANALYSIS-ERROR (exit 2) after the budget (the analyser never runs the analysed code, so a hang is
+    # a defect of the analyser on an unforeseen construct — e.g. a self-referential definition followed naively)
+    import signal
+
+    def _timeout(signum, frame):
+        print(f"ANALYSIS-ERROR property={a.prop} the analysis did not finish within its time budget")
+        os._exit(2)
+    if hasattr(signal, 'SIGALRM'):
+        signal.signal(signal.SIGALRM, _timeout)
+        signal.alarm(int(os.environ.get('VERIF_ANALYSIS_BUDGET_S', '1500')))
     code = run_property(a.prop, a.tier, a.repo, a.out, not a.no_evidence)
+    if hasattr(signal, 'SIGALRM'):
+        signal.alarm(0)
     if code == 0 and a.tier == 'thorough':
         try:
             from sa import selftest
